@@ -72,6 +72,8 @@ public:
    * </ul>
    */
   double getFunctionValue() const override;
+
+  double optimize() override;
   /** @} */
 
   void doInit(const ParameterList& params) override;
